@@ -763,6 +763,8 @@ class Body:
                         inner = pb.trace({"l": 0, "p": []}, tuple(path))
                         if inner and all(l.kind == "const" for l in inner):
                             return [Leaf("const", l.data, l.path, _via) for l in inner]
+                        if inner and all(l.kind in ("const", "agg") for l in inner):
+                            return [Leaf(l.kind, l.data, l.path, _via) for l in inner]
                 return [Leaf("const", c, tuple(path), _via)]
             place = op_place(x)
             if place is None:
